@@ -3,18 +3,22 @@ namespace {
 using namespace pgm;
 #if VF_GROUP == 0
 VF_CM_STATIC("pgm,u64,e4,er2", uint64_t, PGMIndex<uint64_t, 4, 2>);
+VF_CM_CHAIN("pgm,u64,e4,er2", uint64_t, PGMIndex<uint64_t, 4, 2>);
 VF_CM_STATIC("pgm,u32,e16,er0", uint32_t, PGMIndex<uint32_t, 16, 0>);
 VF_CM_STATIC("pgm,f64,e8,er4", double, PGMIndex<double, 8, 4>);
 VF_CM_MD(2, uint32_t, 4);
 #elif VF_GROUP == 1
 VF_CM_STATIC("comp,u32,e8,er4", uint32_t, CompressedPGMIndex<uint32_t, 8, 4>);
 VF_CM_STATIC("comp,u64,e2,er0", uint64_t, CompressedPGMIndex<uint64_t, 2, 0>);
+VF_CM_CHAIN("comp,u64,e1,er4", uint64_t, CompressedPGMIndex<uint64_t, 1, 4>);
 VF_CM_STATIC("comp,u32,e4,er256", uint32_t, CompressedPGMIndex<uint32_t, 4, 256>);
 #elif VF_GROUP == 2
 VF_CM_STATIC("bucket,u32,e4,top128,bits32", uint32_t, BucketingPGMIndex<uint32_t, 4, 128, 32>);
 VF_CM_STATIC("bucket,u64,e8,top100,bits0", uint64_t, BucketingPGMIndex<uint64_t, 8, 100, 0>);
 VF_CM_STATIC("ef,u32,e8", uint32_t, EliasFanoPGMIndex<uint32_t, 8>);
 VF_CM_STATIC("ef,u64,e2", uint64_t, EliasFanoPGMIndex<uint64_t, 2>);
+VF_CM_CHAIN("ef,u64,e1", uint64_t, EliasFanoPGMIndex<uint64_t, 1>);
+VF_CM_CHAIN("bucket,u64,e2,top550,bits0", uint64_t, BucketingPGMIndex<uint64_t, 2, 550, 0>);
 VF_CM_MD(3, uint64_t, 16);
 #else
 VF_CM_DYN("u32,u32,pgm16", uint32_t, uint32_t, PGMIndex<uint32_t, 16>);
